@@ -65,8 +65,8 @@ CLAIMS['C17'] = ('Bounded symbolic model checking of JonesFresnel (R+T=1 for s a
     'meridional incidence in the quick tier (skew and the unpolarised-mean clause in thorough); quarter/half-wave plates to within 1e-9 because the code carries rounded constants; whole-lens polarised traces are covered only through the per-surface step (induction)')
 CLAIMS['C08'] = ('Bounded symbolic model checking of the real Aberrations / AberrationOperand code on K=1..2 (thorough 3) spherical lenses with all radii, thicknesses, indices, aperture and field symbolic, stop first or second, infinite or finite object: '
     'each per-surface third-order term = Welford surface contribution / (2 n\'u\') (oracle written from curvatures, indices and the paraxial rays), sums = -Welford S_I..S_V, defining identities (TCC=3CC, longitudinal = transverse/(-u\'), accessors, seidels(), operands), '
-    'stop-shift invariance of S_I and S_IV, first-order colour terms with a symbolic-dispersion model glass (off-by-one height: known finding F20) and after a medium edit.',
-    'paraxial marginal/chief rays taken from the library (their correctness is C04); the small-aperture limit clause (real ray error -> TSC) is in the thorough tier via truncated power series; conics/aspheres not covered (property restricts to spheres and planes)')
+    'stop-shift invariance of S_I and S_IV, the small-aperture limit of the real axial ray, first-order colour terms with a symbolic-dispersion model glass (off-by-one height: known finding F20) and after a medium edit.',
+    'paraxial marginal/chief rays taken from the library (their correctness is C04); the small-aperture limit clause is decided as a formal Taylor statement (the REAL trace run on power series in the pupil coordinate, order 5: height on the paraxial image plane = (sum TSC) rho^3 + O(rho^4)) for K<=2 with a real image; a lens with only the axial field: known finding F26; conics/aspheres not covered (property restricts to spheres and planes)')
 CLAIMS['C05'] = ('Bounded symbolic model checking on truncated power series: the REAL ray-trace code (generate_rays, Surface._trace_real, conic intersection, normals, refract/reflect, the sequential trace) is executed on series in the scale factor eps with symbolic coefficients; '
     'the limit statement becomes identities between coefficients (eps^0 = 0, eps^1 = paraxial value, eps^2 = 0) decided unsat by the solver: one-surface step for sphere/conic/plane/mirror from an arbitrary near-axis ray (induction over surfaces), and whole K=1..2 lenses against Paraxial.marginal_ray / chief_ray incl. the stop-centre clause.',
     'formal Taylor statement (limit and quadratic rate as eps -> 0); no finite-eps error bound; K<=2 monolithic, any K via the step contract; floats as reals; separated surfaces (t > 0)')
